@@ -208,7 +208,7 @@ def check_ranges(ctx, text, recs, sel, truth, additional, wit):
             quantities.append((col, np.array([truth['rows'][m][col] if col in truth['cols'] else additional[col][m] for m in mn], float)))
         for qi, (qn, q) in enumerate(quantities):
             with np.errstate(all='ignore'):
-                want = (np.nanmin(q) if np.any(np.isfinite(q)) else np.nan, q[0], np.nanmax(q) if np.any(np.isfinite(q)) else np.nan)
+                want = (np.nanmin(q) if np.any(~np.isnan(q)) else np.nan, q[0], np.nanmax(q) if np.any(~np.isnan(q)) else np.nan)          # (infinite values are values)
             got = vals[3 * qi:3 * qi + 3]
             if not all(_isnum(g) and close3e(g, w_) for g, w_ in zip(got, want)):
                 ctx.violation('ranges:wrong-triple', 'a (min, best, max) triple is not the minimum, rank-1 value and maximum over the selected fits',
